@@ -1,6 +1,6 @@
 # configuration of ./check for property C05 (see props_config.py)
 CONFIG = {'gen': ['SmbCommands'],
- 'drivers': ['Smb'],
+ 'drivers': ['Smb', 'SmbDialects'],
  'rule': 'cases = for each of the 114 factory-reachable command structures: field assignments with pairwise distinct bytes in every '
          'integer (so byte order is observable) and boundary-biased random ones, AndX commands with an AndX block set through SetAndX in '
          'two cases of three -> the bytes the real Marshal emits vs the bytes of the MS-CIFS encoder written in Lean from the declared '
